@@ -39,6 +39,8 @@ def declare(reg):
     ])
     S.declare_record('MemoKeyR', [('pos', 'int'), ('ruleinfo', 'RuleInfoR')])
     S.declare_record('RuleResultR', [('node', 'Val'), ('newpos', 'int')])
+    S.declare_record('ParseInfoR', [('cursor', 'Cursor'), ('rule', 'Val'), ('pos', 'int'), ('endpos', 'int'), ('line', 'int'),
+                                    ('endline', 'int'), ('alerts', 'seq[AlertR]')])
 
     # what the memo tables hold: a rule result, a remembered failure (exception class + identity) or nothing
     S.declare_union('Outcome', [('o_none', []), ('o_ok', [('res', 'RuleResultR')]), ('o_err', [('cls', 'int'), ('eid', 'int')])])
@@ -95,7 +97,7 @@ def declare(reg):
     reg.class_alias = {
         'ParseState': 'Frame', 'AST': 'ASTD', 'Alert': 'AlertR', 'RuleInfo': 'RuleInfoR',
         'MemoKey': 'MemoKeyR', 'RuleResult': 'RuleResultR', 'ParseStateStack': 'States',
-        'TextLinesCursor': 'Cursor', 'ParserConfig': 'ConfigR',
+        'TextLinesCursor': 'Cursor', 'ParserConfig': 'ConfigR', 'ParseInfo': 'ParseInfoR',
     }
     reg.record_defaults = {'AlertR': {'level': 1, 'message': ''}}
 
@@ -164,6 +166,7 @@ def declare(reg):
     reg.classes['RuleInfoR'] = {'mro': ['tatsu/contexts/infos.py:RuleInfo'], 'isa': ['RuleInfo']}
     reg.classes['MemoKeyR'] = {'mro': ['tatsu/contexts/infos.py:MemoKey'], 'isa': ['MemoKey']}
     reg.classes['RuleResultR'] = {'mro': ['tatsu/contexts/infos.py:RuleResult'], 'isa': ['RuleResult']}
+    reg.classes['ParseInfoR'] = {'mro': ['tatsu/contexts/infos.py:ParseInfo'], 'isa': ['ParseInfo']}
     reg.classes['AlertR'] = {'mro': ['tatsu/contexts/infos.py:Alert'], 'isa': ['Alert']}
     reg.classes['States'] = {
         'mro': ['tatsu/contexts/state.py:ParseStateStack'],
